@@ -25,8 +25,12 @@ vars == <<settings, stage, outcome>>
 
 FieldSets == {{}} \cup {{f} : f \in FieldNames} \cup {{"request_id", f} : f \in FieldNames \ {"request_id"}}
 Entries == [selector : Selectors, fields : FieldSets]
+\* lists of three entries: valid unary entries only, so that the ONLY possible violation is a duplicate selector -
+\* adjacent (positions 1,2 / 2,3) or not adjacent (positions 1,3)
+Plain == {e \in Entries : MethodKind[e.selector] = "unary" /\ e.fields \in {{}, {"request_id"}}}
 Init == /\ settings \in {<<>>} \cup {<<e>> : e \in Entries}
                       \cup {<<e1, e2>> : e1 \in {e \in Entries : e.fields \subseteq {"request_id"}}, e2 \in {e \in Entries : Cardinality(e.fields) <= 1}}
+                      \cup {<<e1, e2, e3>> : e1 \in Plain, e2 \in Plain, e3 \in Plain}
         /\ stage = "loaded" /\ outcome = "pending"
 
 FieldOk(f) == f # NestedField /\ FieldKind[f] = "ok"
